@@ -699,6 +699,7 @@ type c01Scen struct {
 	holds   bool
 	blocker string
 	cross   bool
+	huge    bool // quantities and holdings that do not fit 64 bits (fungible and semi-fungible kinds)
 }
 
 var c01Kinds = []string{"fungible", "sft", "nft"}
@@ -713,7 +714,11 @@ func (s c01Scen) name() string {
 	if s.holds {
 		h = "dest-holds"
 	}
-	return fmt.Sprintf("%s/%s/%s/%s/%s", c01Kinds[s.kind], c01Shapes[s.shape], h, s.blocker, pl)
+	hg := ""
+	if s.huge {
+		hg = "/huge"
+	}
+	return fmt.Sprintf("%s/%s/%s/%s/%s%s", c01Kinds[s.kind], c01Shapes[s.shape], h, s.blocker, pl, hg)
 }
 
 func c01RunScenario(c *ctx, u *universe, s c01Scen, b *tkBudget, idx int, extra map[string]int) {
@@ -748,6 +753,16 @@ func c01RunScenario(c *ctx, u *universe, s c01Scen, b *tkBudget, idx int, extra 
 		tok, nonce, qty = u.NFTs[1], 1, 3
 	case 2:
 		tok, nonce, qty = u.NFTs[0], 1, 1
+	}
+	qtyB, qtyB1 := be(qty), be(qty+1)
+	if s.huge && s.kind < 2 {
+		// the sender's holding and the moved quantity exceed 64 bits (a quantity truncated anywhere on the way shows as a lost or created amount)
+		if s.kind == 0 {
+			r.must(r.sys(snd, "ESDTTransfer", tok, big64(1000)), "huge issue")
+		} else {
+			r.must(r.tx(snd, snd, "ESDTNFTAddQuantity", bigGas, tok, be(nonce), big64(1000)), "huge add quantity")
+		}
+		qtyB, qtyB1 = big64(5), big64(6)
 	}
 	moveTo := func(args ...[]byte) { // one NFT transfer from snd to dst (with an attached argument: no oracle query), delivered if cross-shard
 		sr := r.must(r.tx(snd, snd, "ESDTNFTTransfer", bigGas, append(args, []byte("seed"))...), "seed transfer")
@@ -787,23 +802,23 @@ func c01RunScenario(c *ctx, u *universe, s c01Scen, b *tkBudget, idx int, extra 
 	switch s.shape {
 	case 0:
 		if s.kind == 0 {
-			sr = r.tx(snd, dst, "ESDTTransfer", bigGas, tok, be(qty))
+			sr = r.tx(snd, dst, "ESDTTransfer", bigGas, tok, qtyB)
 		} else {
-			sr = r.tx(snd, snd, "ESDTNFTTransfer", bigGas, tok, be(nonce), be(qty), dst)
+			sr = r.tx(snd, snd, "ESDTNFTTransfer", bigGas, tok, be(nonce), qtyB, dst)
 		}
 	case 1:
-		sr = r.tx(snd, snd, "MultiESDTNFTTransfer", bigGas, tkMulti(dst, tok, be(nonce), be(qty))...)
+		sr = r.tx(snd, snd, "MultiESDTNFTTransfer", bigGas, tkMulti(dst, tok, be(nonce), qtyB)...)
 	case 2:
 		if s.kind == 0 {
-			sr = r.tx(snd, snd, "MultiESDTNFTTransfer", bigGas, tkMulti(dst, tok, be(nonce), be(qty), u.NFTs[1], be(2), be(2))...)
+			sr = r.tx(snd, snd, "MultiESDTNFTTransfer", bigGas, tkMulti(dst, tok, be(nonce), qtyB, u.NFTs[1], be(2), be(2))...)
 		} else {
-			sr = r.tx(snd, snd, "MultiESDTNFTTransfer", bigGas, tkMulti(dst, u.Fung[1], nil, be(7), tok, be(nonce), be(qty))...)
+			sr = r.tx(snd, snd, "MultiESDTNFTTransfer", bigGas, tkMulti(dst, u.Fung[1], nil, be(7), tok, be(nonce), qtyB)...)
 		}
 	default:
 		if s.kind == 2 {
-			sr = r.tx(snd, snd, "MultiESDTNFTTransfer", bigGas, tkMulti(dst, tok, be(nonce), be(qty), u.NFTs[1], be(1), be(2), u.NFTs[1], be(1), be(3))...)
+			sr = r.tx(snd, snd, "MultiESDTNFTTransfer", bigGas, tkMulti(dst, tok, be(nonce), qtyB, u.NFTs[1], be(1), be(2), u.NFTs[1], be(1), be(3))...)
 		} else {
-			sr = r.tx(snd, snd, "MultiESDTNFTTransfer", bigGas, tkMulti(dst, tok, be(nonce), be(qty), u.Fung[1], nil, be(4), tok, be(nonce), be(qty+1))...)
+			sr = r.tx(snd, snd, "MultiESDTNFTTransfer", bigGas, tkMulti(dst, tok, be(nonce), qtyB, u.Fung[1], nil, be(4), tok, be(nonce), qtyB1)...)
 		}
 	}
 	outcome := "origin-" + statusName(sr.Res.Status)
@@ -1100,6 +1115,10 @@ func init() {
 							for _, blocker := range bl {
 								c01RunScenario(c, u, c01Scen{kind: kind, shape: shape, holds: holds, blocker: blocker, cross: cross}, budget, idx, extra)
 								idx++
+								if kind < 2 && rep == 0 && (blocker == "none" || blocker == "paused" || blocker == "frozen") {
+									c01RunScenario(c, u, c01Scen{kind: kind, shape: shape, holds: holds, blocker: blocker, cross: cross, huge: true}, budget, idx, extra)
+									idx++
+								}
 							}
 						}
 					}
